@@ -76,7 +76,7 @@ def gen_op(rng, n_query, allow_nested=True):
     elif stage in ('refmarkers', 'pmask', 'pmask_markers'):
         op['cfg'] = {'n_valid': rng.choice([2, 5]), 'p_th': rng.choice([0.01, 0.5])}
     elif stage == 'qmarkers':
-        op['cfg'] = {'n_per_utility': rng.randint(1, 3)}
+        op['cfg'] = {'n_per_utility': rng.randint(1, 3), 'synthetic_table': rng.random() < 0.5}
     else:
         op['cfg'] = {'round_to_int': rng.random() < 0.7, 'use_output_dir': rng.random() < 0.5}
     r = rng.random()
@@ -160,6 +160,11 @@ def prepare(sb, W):
     r2, _ = harness.run_call(f, drivers.run_p_value_mask, ctx['stats'], sb.p('in', 'pmask.h5'), prep_scratch,
                              n_processors=2)
     ctx['pmask'] = sb.p('in', 'pmask.h5')
+    # a synthetic reference-marker table as well: sparse, with empty and one-sided pairs
+    from . import c12
+    ctx['refm_syn'] = c12.write_synthetic_markers(sb.p('in', 'reference_markers_synthetic.h5'), W, ctx['stats'],
+                                                  {'seed': len(W.genes) * 7 + len(W.tax.leaves), 'density': 0.15,
+                                                   'empty_pairs': 0.3, 'one_sided': 0.6})
     ctx['prep_ok'] = {'refmarkers': r1[0] == 'ok', 'pmask': r2[0] == 'ok'}
     shutil.rmtree(prep_scratch, ignore_errors=True)
     return ctx
@@ -235,7 +240,8 @@ def call_op(sb, ctx, op, out_dir, scratch, sched, clean=False):
         return harness.run_call(sched, drivers.run_markers_from_p_mask, ctx['stats'], ctx['pmask'], o['refm'],
                                 scratch, n_processors=max(2, npr), n_valid=cfg['n_valid'])
     if st == 'qmarkers':
-        return harness.run_call(sched, drivers.run_query_markers, [ctx['refm']], o['qm'], scratch,
+        return harness.run_call(sched, drivers.run_query_markers,
+                                [ctx['refm_syn'] if cfg.get('synthetic_table') else ctx['refm']], o['qm'], scratch,
                                 n_processors=max(2, npr), n_per_utility=cfg['n_per_utility'])
     from cell_type_mapper.validation.validate_h5ad import validate_h5ad
     from cell_type_mapper.gene_id.gene_id_mapper import GeneIdMapper
@@ -368,7 +374,7 @@ def run(scn, sb):
             return clean_cache[key]
 
         for i, op in enumerate(scn['ops']):
-            if op['stage'] in ('qmarkers',) and not ctx['prep_ok']['refmarkers']:
+            if op['stage'] in ('qmarkers',) and not ctx['prep_ok']['refmarkers'] and not op['cfg'].get('synthetic_table'):
                 res['not_judged']['prerequisite_stage_failed'] = res['not_judged'].get('prerequisite_stage_failed', 0) + 1
                 continue
             if op['stage'] == 'pmask_markers' and not ctx['prep_ok']['pmask']:
